@@ -70,6 +70,12 @@ VARIANTS = [
     V( 'strlen-largest-count-refused', PARSER, 'assert value.length < 1<<8, "SSTRING must be < 256 bytes in length; %r" % value', 'assert value.length < 0xFF, "SSTRING must be < 256 bytes in length; %r" % value', fires=[ 'L-STRLEN' ] ),
     V( 'strlen-bound-as-constant', PARSER, 'assert value.length < 1<<16, "STRING must be < 65536 bytes in length; %r" % value', 'assert value.length <= 0xFFFF, "STRING must be < 65536 bytes in length; %r" % value', silent=[ 'L-STRLEN' ] ),
     V( 'resolve-empty-rest-dropped', DOT, "rest = rest if sep else None", "rest	= rest or None", fires=[ 'D-RESOLVE' ] ),
+    V( 'gateway-closed-only-without-exception', GETATTR, "if self.gateway is not None:\n try:\n self.gateway.close()", "if self.gateway is not None:\n            try:\n                if exc is None: self.gateway.close()", fires=[ 'P-GATEWAY' ] ),
+    V( 'gateway-close-guard-spelled-truthy', GETATTR, "if self.gateway is not None:\n try:\n self.gateway.close()", "if self.gateway:\n            try:\n                self.gateway.close()", silent=[ 'P-GATEWAY' ] ),
+    V( 'maintained-only-when-closed', GETATTR, "def wrapper( inst, *args, **kwds ):\n with inst:\n return function( inst, *args, **kwds )", "def wrapper( inst, *args, **kwds ):\n            if inst.gateway is not None:\n                return function( inst, *args, **kwds )\n            with inst:\n                return function( inst, *args, **kwds )", fires=[ 'P-GATEWAY' ] ),
+    V( 'string-pad-waived-at-end-of-input', PARSER, "predicate=lambda path=None, data=None, **kwds: (\n 0 == data[path].length % 2 and len( data[path].string ) == data[path].length ),",
+       "predicate=lambda path=None, data=None, source=None, **kwds: (\n                                        len( data[path].string ) == data[path].length and ( 0 == data[path].length % 2 or source.peek() is None )),", fires=[ 'G-EXACT' ] ),
+    V( 'usend-route-path-optional', PARSER, "pad0[None] = rout\n", "pad0[None]		= rout\n        rout.terminal	= True\n", silent=[ 'G-USEND' ] ),
     V( 'gateway-abandoned-generator-left-suspended', GETATTR, "results.close()\n raise", "raise", fires=[ 'P-GATEWAY' ] ),
     V( 'routetext-null-element-ends-the-walk', DEVICE, "pl = next( pls, end )\n while pl is not end:", "pl			= next( pls, None )\n        while pl:", fires=[ 'T-ROUTETEXT' ] ),
     V( 'bool-scaled-value', PARSER, "encoding = super( BOOL, cls ).produce( value )\n return encoding if encoding == b'\\x00' else b'\\xff'", "return super( BOOL, cls ).produce( 0xff * value )", fires=[ 'T-BOOL' ] ),
